@@ -214,7 +214,25 @@ def case_select(case):
         other = os.path.join(root, "other")
         os.makedirs(other)
         with Recorders():
+            first_seen = {}
             for name in case["names"]:
+                if first_seen:
+                    # the names handled so far once more, operations in the opposite order, after all the other calls: the selection
+                    # is a function of the name, the format argument and the operation - not of what was selected before
+                    for (name0, op0), res0 in list(first_seen.items())[::-1]:
+                        path0 = os.path.join(root, name0)
+                        with open(path0, "w") as fh:
+                            fh.write("sentinel\n")
+                        try:
+                            res1 = call_api(op0, path0, None)[:2]
+                        finally:
+                            if os.path.lexists(path0):
+                                os.remove(path0)
+                        counters["reselections"] = counters.get("reselections", 0) + 1
+                        if res1 != res0:
+                            viols.append(_v("select-history-dependent", f"{op0}({name0!r}) selected {res0} at first and {res1} after "
+                                            "other operations on the same and other names"))
+                    first_seen = {}
                 for op in OPS:
                     for fmt in fmts:
                         want = expected_set(name, fmt, op)
@@ -301,6 +319,8 @@ def case_select(case):
                                 viols.append(_v("select-wrong", f"{tag}: chose {sorted(mods_seen)}, acceptable {sorted(want)}"))
                             if errs - admitted_err:
                                 viols.append(_v("select-wrong", f"{tag}: unexpected errors {sorted(errs - admitted_err)} for a selectable format"))
+                        if fmt is None and any(r[0] == "module" for r in observed):
+                            first_seen[(name, op)] = next(r for r in observed if r[0] == "module")
                         feats.append(f"sel:{name}:{fmt}:{op}")
                         if sample is None and want:
                             sample = {"name": name, "fmt": fmt, "op": op, "acceptable": sorted(want), "observed": sorted(set(observed))}
